@@ -375,7 +375,7 @@ static int st_apply(uint32_t op, int audit)
         vrt_state(Mn[l1] == 0 ? "empty" : "nonempty");
         VRT_OP1("slist.clear", "l%ld", l1);
         clear_list = l1; clear_seen = 0;
-        cstl_slist_clear(&L[l1], clear_cb);
+        if (vrt_case_tick() & 1) cstl_slist_clear(&L[l1], clear_cb); else VRT_NOMEM(cstl_slist_clear(&L[l1], clear_cb));     /* clear has no way to fail: also with an allocator that refuses everything */
         VRT_CHECK(clear_seen == Mn[l1], "slist.clear.count", "clear handed over %d of %d elements", clear_seen, Mn[l1]);
         Mn[l1] = 0;
         VRT_COUNT("op.clear");
